@@ -36,6 +36,8 @@ pub struct E1Prop {
     pub exclude: Option<fn(&Case) -> Option<&'static str>>,
     /// the oracle without outcome-dependent tolerances (used for replay files); defaults to `oracle`
     pub raw_oracle: Option<Oracle>,
+    /// T2: number of metamorphic corpus cases (quick, thorough); 0 = tier not used
+    pub t2_cases: (u32, u32),
 }
 
 pub fn replay_value(prop: &str, case: &Case, detail: &str, origin: &str) -> Value {
@@ -106,8 +108,10 @@ pub fn run(prop: &E1Prop, tier: Tier) -> i32 {
     // 1. replay files of known findings
     replay_findings(prop, &findings, &mut rep, &mut stats);
 
+    // development aid: VERIF_ONLY=T2 runs the metamorphic tier alone, VERIF_T2_CASES overrides its size
+    let only_t2 = std::env::var("VERIF_ONLY").map_or(false, |v| v == "T2");
     // 2. T0: corpus x catalogue
-    if prop.use_t0 {
+    if prop.use_t0 && !only_t2 {
         t0(prop, &findings, &mut rep, &mut stats);
     }
 
@@ -116,10 +120,18 @@ pub fn run(prop: &E1Prop, tier: Tier) -> i32 {
         Tier::Quick => prop.quick_cases,
         Tier::Thorough => prop.thorough_cases,
     };
-    t1(prop, seed, cases, &mut rep, &mut stats);
+    t1(prop, seed, if only_t2 { 0 } else { cases }, &mut rep, &mut stats);
+
+    // 3b. T2: pinned corpus pairs changed by a whitelisted mutation (statement-level comment insertion)
+    let t2n = match tier {
+        Tier::Quick => prop.t2_cases.0,
+        Tier::Thorough => prop.t2_cases.1,
+    };
+    let t2n = std::env::var("VERIF_T2_CASES").ok().and_then(|v| v.parse().ok()).unwrap_or(t2n);
+    t2(prop, seed, t2n, &findings, &mut rep, &mut stats);
 
     // 4. property-specific tier
-    if let Some(extra) = prop.extra {
+    if let (Some(extra), false) = (prop.extra, only_t2) {
         extra(&mut rep, &mut stats, tier, &findings);
     }
 
@@ -349,6 +361,168 @@ pub fn replay(prop: &E1Prop, v: &Value) -> i32 {
         other => {
             println!("no violation: {other:?}");
             0
+        }
+    }
+}
+
+/// inserts 1-3 comments at statement level into a corpus file (own line before a statement that starts its line;
+/// at the end of the line after a statement that ends its line)
+pub fn mutate_with_comments(src: &str, syn: Syntax, t: &mut Tape, labels: &mut Vec<&'static str>) -> Option<String> {
+    let ast = crate::engine::guarded(|| crate::norm::parse(src, syn)).ok()?.ok()?;
+    let json = serde_json::to_value(ast.nodes()).ok()?;
+    let mut stmts = Vec::new();
+    crate::model::all_statements(&json, 0, &mut stmts);
+    if stmts.is_empty() {
+        return None;
+    }
+    let k = 1 + t.pick(3);
+    // (byte offset, text) insertions
+    let mut ins: Vec<(usize, String)> = Vec::new();
+    let b = src.as_bytes();
+    for i in 0..k {
+        let st = &stmts[t.pick_wide(stmts.len().min(65535))];
+        let before = t.chance(128);
+        let form = t.pick(3);
+        if before {
+            // the statement must start its line
+            let line_start = src[..st.start].rfind('\n').map_or(0, |p| p + 1);
+            let indent = &src[line_start..st.start];
+            if !indent.chars().all(|c| c == ' ' || c == '\t') {
+                continue;
+            }
+            let c = match form {
+                0 => format!("-- inserted {i}"),
+                1 => format!("--[[ inserted {i} ]]"),
+                _ => format!("--[==[ inserted {i}\n   second line ]==]"),
+            };
+            ins.push((line_start, format!("{indent}{c}\n")));
+            labels.push("t2:comment-before-stmt");
+        } else {
+            // the statement (with its semicolon) must end its line
+            let end = st.end_semi;
+            let rest_end = b[end..].iter().position(|&c| c == b'\n').map_or(b.len(), |p| end + p);
+            if !src[end..rest_end].chars().all(|c| c == ' ' || c == '\t' || c == '\r') {
+                continue;
+            }
+            let c = if form == 0 { format!(" -- appended {i}") } else { format!(" --[[ appended {i} ]]") };
+            ins.push((end, c));
+            labels.push("t2:comment-after-stmt");
+        }
+    }
+    if ins.is_empty() {
+        return None;
+    }
+    ins.sort_by_key(|x| x.0);
+    ins.dedup_by_key(|x| x.0);
+    let mut out = String::with_capacity(src.len() + 64);
+    let mut cur = 0;
+    for (at, text) in ins {
+        out.push_str(&src[cur..at]);
+        out.push_str(&text);
+        cur = at;
+    }
+    out.push_str(&src[cur..]);
+    Some(out)
+}
+
+fn t2(prop: &E1Prop, seed: u64, cases: u32, findings: &[Finding], rep: &mut Reporter, stats: &mut Stats) {
+    if cases == 0 {
+        return;
+    }
+    let corpus: Vec<CorpusFile> = corpus::load().into_iter().filter(|f| f.source.len() <= 12_000).collect();
+    let known: BTreeSet<String> = findings.iter().flat_map(|f| f.pairs.iter().cloned()).collect();
+    let workers = num_workers();
+    let per = (cases as usize + workers - 1) / workers;
+    let results = par_workers(workers, |w| {
+        let st = RefCell::new(Stats::default());
+        let failed = RefCell::new(false);
+        let mut r = runner(seed, &format!("{}-T2", prop.id), w, per as u32);
+        let strat = proptest::collection::vec(any::<u8>(), 0..40);
+        let build = |tape: &[u8], labels: &mut Vec<&'static str>| -> Option<(Case, String)> {
+            let mut t = Tape::new(tape);
+            let f = &corpus[t.pick_wide(corpus.len())];
+            let cat = catalogue(f.syntax);
+            let cfg = cat[t.pick(cat.len())];
+            let key = format!("{}|{}", f.name, cfg.label());
+            // a base pair that is excused by a known finding is not a base
+            if known.contains(&key) {
+                return None;
+            }
+            // files whose base pair is listed for any configuration carry comments in unsupported positions
+            if known.iter().any(|k| k.starts_with(&format!("{}|", f.name))) {
+                return None;
+            }
+            let mutated = mutate_with_comments(&f.source, f.syntax, &mut t, labels)?;
+            Some((Case::new(mutated, cfg), key))
+        };
+        let res = r.run(&strat, |tape| {
+            let mut labels = Vec::new();
+            let Some((case, _key)) = build(&tape, &mut labels) else {
+                if !*failed.borrow() {
+                    st.borrow_mut().skip("T2: no base / no insertion point");
+                }
+                return Ok(());
+            };
+            if let Some(kf) = prop.exclude.and_then(|e| e(&case)) {
+                if !*failed.borrow() {
+                    *st.borrow_mut().excluded.entry(kf.to_string()).or_default() += 1;
+                }
+                return Ok(());
+            }
+            let (out, ticks) = run_format(&case);
+            let v = match crate::engine::guarded(|| (prop.oracle)(&case, &out, ticks)) {
+                Ok(v) => v,
+                Err(p) => {
+                    st.borrow_mut().notes.push(format!("HARNESS-PANIC in oracle (T2): {p}"));
+                    return Ok(());
+                }
+            };
+            let counting = !*failed.borrow();
+            match v {
+                Verdict::Pass { nontrivial } => {
+                    if counting {
+                        let mut s = st.borrow_mut();
+                        s.count("T2-corpus-mutation");
+                        if nontrivial {
+                            s.nontrivial.insert(case.hash64());
+                        }
+                        labels.sort();
+                        labels.dedup();
+                        for l in labels {
+                            s.label(l);
+                        }
+                    }
+                    Ok(())
+                }
+                Verdict::Skip(why) => {
+                    if counting {
+                        st.borrow_mut().skip(why);
+                    }
+                    Ok(())
+                }
+                Verdict::Fail(d) => {
+                    *failed.borrow_mut() = true;
+                    Err(TestCaseError::fail(d))
+                }
+            }
+        });
+        let failure = match res {
+            Ok(()) => None,
+            Err(TestError::Fail(reason, tape)) => {
+                let mut labels = Vec::new();
+                build(&tape, &mut labels).map(|(case, key)| (case, reason.to_string(), key))
+            }
+            Err(TestError::Abort(reason)) => {
+                st.borrow_mut().notes.push(format!("worker {w} aborted: {reason}"));
+                None
+            }
+        };
+        (st.into_inner(), failure)
+    });
+    for (s, failure) in results {
+        stats.merge(s);
+        if let Some((case, reason, key)) = failure {
+            rep.violation(replay_value(prop.id, &case, &reason, &format!("T2:{key}+comments")), "T2");
         }
     }
 }
